@@ -4,6 +4,12 @@ import os
 import vlib
 
 PROPS = "Properties_C14"
+EXTRA_PROPS = ["Properties_errno"]   # errno -> status table regenerated from errno_status.c on every run
+
+
+def REGEN(ctx):
+    vlib.regen_errno(ctx)
+
 RULE = ("per configuration (source kind x size x destination state x option x allocator answer x block sizes x "
         "kernel-copy available/unavailable) the fault-free run, then one fault (error or short count) at every "
         "system-call index of that run (thorough: every index x several errno values and short counts; quick: "
